@@ -4,37 +4,35 @@ import SqlgrepModel.Props.C04
 C04 — STDDEV / VARIANCE against an INDEPENDENT definition, and the choices of the code the sentence does not fix.
 
 The property sentence says "STDDEV / VARIANCE … over the argument's non-NULL values"; the README says `stddev(x)`,
-`variance(x)`. `Spec/Agg.lean` `populationVariance` (to which the model's `stddevCalc` is definitionally equal, and which the
-engine is proved to show: `Props.C04.aggregate_fold_refines`) is the CODE'S formula, evaluated in REAL arithmetic step by
-step: `(Σx² − (Σx)²/n) / n`. That the model equals that formula is therefore true by construction and says nothing about
-whether the formula is a variance. This file states what IS and what IS NOT the case, against `Spec/Variance.lean` (the
-textbook population variance `σ² = (1/n)·Σ(x − μ)²` over exact rationals):
+`variance(x)`. `Spec/Variance.lean` is the textbook population variance `σ² = (1/n)·Σ(x − μ)²` over exact rationals, written
+from nothing in the code. `Spec/Agg.lean` (`intVariance`, `realVariance`; the model's `stddevCalcInt` / `stddevCalc` equal them by
+definition, and the engine is proved to show them: `Props.C04.aggregate_fold_refines`) is what the CODE computes, since the
+repair of finding **D72** (below). This file relates the two:
 
-  (i)   `onepass_formula_is_the_variance_over_rationals`: over ℚ the formula and the definition are equal; `variance_nonneg`,
-        `variance_of_equal_values_is_zero`, `variance_of_ints_cross_multiplied` (`n²·σ² = n·Σx² − (Σx)²`).
-  (ii)  `variance_exact_where_no_step_rounds`, `stddev_exact_where_no_step_rounds`: for INT arguments on which no step of the
-        formula rounds (`onePassExactInts`, `sqrtExact`: decidable; satisfied e.g. by small integers whose count is a power of
-        two) the REAL the model shows IS the textbook variance / standard deviation, exactly; `variance_exact_where_no_step_rounds_real`
-        the same for REAL arguments whose running sums are exact as well (`onePassExactReals`); `engine_variance_exact_where_no_step_rounds`
-        carries it to the engine's running computation. Examples.
-  (iii) `every_step_is_correctly_rounded`: in general each of the four operations returns the REAL nearest to the exact
-        result on its (already rounded) operands — and that is all. It does NOT follow that the result is the REAL nearest
-        to the variance, or near it, or non-negative: `Σx² − (Σx)²/n` cancels. FALSE in general, with kernel-evaluated
-        witnesses that were run on the real program (candidate finding **D72**, see below):
-          * `d72_variance_negative_real`:   VARIANCE over the REALs 0.1, 0.1, 0.1 is −1.16e-18, STDDEV is NaN (exact: 0, 0);
-          * `d72_variance_negative_int`:    VARIANCE over seven INTs 1000000007 is −146.29, STDDEV is NaN (exact: 0, 0);
-          * `d72_variance_of_equal_ints_positive`: VARIANCE over three INTs 300000007 is 10.67, STDDEV 3.27 (exact: 0, 0).
+  (i)   over ℚ: `onepass_formula_is_the_variance_over_rationals`, `variance_nonneg`, `variance_of_equal_values_is_zero`,
+        `variance_of_ints_cross_multiplied` (`σ² = (n·Σx² − (Σx)²) / n²`).
+  (ii)  INT arguments — the HEADLINE `int_variance_is_rounded_exact_quotient`: with `N = n·Σx² − (Σx)²` and `D = n²` formed
+        EXACTLY (integers; `N / D` IS the textbook variance), the VARIANCE cell is `fl( fl(N) / fl(D) )`: two correctly rounded
+        conversions (nearest, ties to even) and one correctly rounded division — no subtraction of rounded terms. Corollaries:
+        `int_variance_never_negative` (never NaN, never negative), `int_variance_of_equal_values_is_zero` (`0.0`, and STDDEV
+        `0.0`), `int_variance_correctly_rounded_when_small` (when `N`, `D < 2^53` the conversions are exact, so the cell is a
+        REAL NEAREST TO THE VARIANCE ITSELF — one rounding), `int_variance_exact_when_representable` (… and when the variance is
+        a REAL, the cell is that REAL), `engine_int_variance` (the engine's running fold shows that cell).
+  (iii) REAL arguments — the one-pass formula `(Σx² − (Σx)²/n)/n` step by step in REAL arithmetic, then negative results are
+        replaced by `0.0`: `real_variance_never_below_zero`, `real_variance_is_formula_unless_negative` (the clamp theorem),
+        `variance_exact_where_no_step_rounds_real` (under the decidable `onePassExactReals` the cell is EXACTLY the textbook
+        variance of the exact values), `every_step_is_correctly_rounded` (all that holds in general: each operation is nearest
+        on its own rounded operands; the subtraction cancels, so no bound on the distance from the exact variance is claimed —
+        `real_formula_can_go_negative` is the kernel-evaluated witness of why the clamp is there).
   (iv)  the CHOICES of the code that the sentence does not fix and the specification mirrors, as kernel-evaluated facts:
         population not sample (`choice_population_not_sample`), PERCENTILE = nearest rank at index `min(⌊p·n⌋, n−1)`
         (`choice_percentile_nearest_rank`), AVG over INT truncates towards zero (`choice_avg_int_truncates`).
 
-Candidate finding D72 (reported, /repo not repaired, nothing weakened): on the real program (sqlgrep 0.8.2, /repo 36cb45c)
-  `CREATE TABLE t(line = 'v=(.*)', line[1] => v REAL);`, three lines `v=0.1`, `SELECT VARIANCE(v), STDDEV(v) FROM t`
-prints `variance0: -0.00, stddev1: NaN` (JSON: `{"variance0":-1.1564823173178713e-18,"stddev1":null}`); with `v INT` and seven
-lines `v=1000000007` it prints `variance0: -146.29, stddev1: NaN`; with three lines `v=300000007` it prints
-`variance0: 10.67, stddev1: 3.27`. A variance is never negative and the standard deviation of equal values is 0, so these
-cells are not "computed from the rows of the group" in any reading of VARIANCE / STDDEV; model and code AGREE (the model
-mirrors the one-pass formula), it is the formula that does not compute a variance once `(Σx)²/n` needs more than 53 bits.
+Finding **D72** (repaired in /repo; `notes/pending/D72-variance.patch` until committed). Before the repair both branches evaluated
+the one-pass formula in REAL arithmetic, INT sums converted first: over three REAL rows `0.1` the program printed
+`variance0: -0.00, stddev1: NaN`, over seven INT rows `1000000007` `variance0: -146.29, stddev1: NaN`, over three INT rows
+`300000007` `variance0: 10.67, stddev1: 3.27` — the values of each group are equal, the variance is 0. The REGRESSION witnesses
+`d72_repaired_real`, `d72_repaired_int`, `d72_repaired_equal_ints` evaluate the same three inputs in the kernel: `0.0` and `0.0`.
 -/
 namespace Sqlgrep.Props.C04Variance
 open Sqlgrep Sqlgrep.Value Sqlgrep.Spec.Agg Sqlgrep.Spec.Variance Sqlgrep.Variance
@@ -64,7 +62,7 @@ theorem variance_of_equal_values_is_zero (n : Nat) (c : Rat) :
 theorem variance_of_ints_cross_multiplied (is : List Int) (h : is ≠ []) :
     popVariance (ratsOfInts is) = (varNumer is : Rat) / ((is.length : Rat) * is.length) := popVariance_ints is h
 
-/-! ### (ii) where no step rounds the model shows the variance, exactly -/
+/-! ### (ii) INT arguments: the cell is the rounded quotient of the EXACT numerator and denominator of the variance -/
 
 /-- the 64-bit range conditions under which the specification (and the code) answer at all for INT arguments: every
 square, every partial sum and every partial sum of squares is an i64 -/
@@ -76,12 +74,9 @@ theorem ints_map_int' (l : List Int) : ints (l.map Value.int) = some l := by
   | nil => rfl
   | cons x xs ih => simp only [ints, List.map_cons, asInt, collect_cons_some] at ih ⊢; rw [ih]; rfl
 
-theorem spread_variance (n : Int) (s q : Nat) : spread n true s q = populationVariance n s q := by
-  simp only [spread, if_true]
-
 theorem stddevOf_ints (isVar : Bool) (i : Int) (is : List Int) (hrange : sumsInRange (i :: is) = true) :
     stddevOf isVar ((i :: is).map Value.int) =
-      some (.real (spread (i :: is).length isVar (F64.ofInt (intSum (i :: is))) (F64.ofInt (intSum ((i :: is).map (fun x => x * x)))))) := by
+      some (.real (spreadInt (i :: is).length isVar (intSum (i :: is)) (intSum ((i :: is).map (fun x => x * x))))) := by
   have hi := ints_map_int' (i :: is)
   unfold sumsInRange at hrange
   simp only [List.map_cons] at hi
@@ -93,12 +88,20 @@ theorem stddevOf_ints (isVar : Bool) (i : Int) (is : List Int) (hrange : sumsInR
 theorem stddev_of_ints (e : Expr) (isVar : Bool) (vs : List Value) (is : List Int) (hne : is ≠ [])
     (h : nonNull vs = is.map Value.int) (hrange : sumsInRange is = true) :
     aggregate (.stddev e isVar) vs =
-      some (.real (spread is.length isVar (F64.ofInt (intSum is)) (F64.ofInt (intSum (is.map (fun x => x * x)))))) := by
+      some (.real (spreadInt is.length isVar (intSum is) (intSum (is.map (fun x => x * x))))) := by
   cases is with
   | nil => exact absurd rfl hne
   | cons i is =>
     simp only [aggregate, h]
     exact stddevOf_ints isVar i is hrange
+
+theorem spreadInt_variance (n S Q : Int) : spreadInt n true S Q = intVariance n S Q := by
+  simp only [spreadInt, finishSpread, if_true]
+theorem spreadInt_stddev (n S Q : Int) : spreadInt n false S Q = F64.sqrt (intVariance n S Q) := by
+  simp only [spreadInt, finishSpread, Bool.false_eq_true, if_false]
+
+theorem sq_all_of_range {is : List Int} (h : sumsInRange is = true) : (is.map (fun x => x * x)).all inI64 = true := by
+  unfold sumsInRange at h; simp only [Bool.and_eq_true] at h; exact h.1.1
 
 /-- a cell is the REAL with bit pattern `b` (decidable form, for kernel evaluation) -/
 theorem real_of_bits {o : Option Value} {b : Nat} (h : o.bind asReal = some b) : o = some (.real b) := by
@@ -111,33 +114,147 @@ theorem int_of_bits {o : Option Value} {i : Int} (h : o.bind asInt = some i) : o
   | none => simp at h
   | some v => cases v <;> simp [asInt] at h ⊢; exact h
 
-/-- **(ii) VARIANCE.** For INT arguments within the 64-bit range on which no step of the one-pass formula rounds
-(`onePassExactInts`, decidable), the REAL shown by the specification — hence by the model and, through the C04 refinement, by
-the engine — is finite and its exact value is the textbook population variance of the values. -/
-theorem variance_exact_where_no_step_rounds (e : Expr) (vs : List Value) (is : List Int) (hne : is ≠ [])
-    (h : nonNull vs = is.map Value.int) (hrange : sumsInRange is = true) (hex : onePassExactInts is = true) :
-    ∃ v, aggregate (.stddev e true) vs = some (.real v) ∧ F64.IsExactly v (popVariance (ratsOfInts is)) := by
-  refine ⟨_, stddev_of_ints e true vs is hne h hrange, ?_⟩
-  rw [spread_variance]
-  exact onePass_exact_value is hne hex
+/-- **HEADLINE (INT arguments).** For a group of fewer than `2^63` INT values within the 64-bit range (what the code can count
+and sum at all), let `N = n·Σx² − (Σx)²` and `D = n²`, formed exactly. Then
+* `N ≥ 0`, `D > 0` and `N / D` is EXACTLY the textbook population variance of the values (over ℚ);
+* the VARIANCE cell is `fl(N) / fl(D)` in REAL arithmetic, where `fl(N)`, `fl(D)` (`i128 as f64`) are finite, non-negative
+  REALs NEAREST to `N` resp. `D` (ties to even: `Lemmas/Variance.lean` `ofInt_nat_tie_even`), and the division is correctly
+  rounded: if the cell is finite no REAL `y` is nearer to the exact quotient `fl(N) / fl(D)` (cross-multiplied);
+* the cell is never NaN and never negative.
+Two correctly rounded conversions and one correctly rounded division of the exact rational's numerator and denominator. -/
+theorem int_variance_is_rounded_exact_quotient (e : Expr) (vs : List Value) (is : List Int) (hne : is ≠ [])
+    (h : nonNull vs = is.map Value.int) (hrange : sumsInRange is = true) (hcount : is.length < 2 ^ 63) :
+    ∃ N D : Nat, (N : Int) = varNumer is ∧ D = is.length * is.length ∧ 0 < D ∧
+      popVariance (ratsOfInts is) = (N : Rat) / (D : Rat) ∧
+      aggregate (.stddev e true) vs = some (.real (F64.div (F64.ofInt N) (F64.ofInt D))) ∧
+      (F64.isFinite (F64.ofInt N) = true ∧ F64.signBit (F64.ofInt N) = false ∧
+        ∀ y, DecFloat.adist (N * F64.unitScale) (F64.umag (F64.ofInt N)) ≤ DecFloat.adist (N * F64.unitScale) (F64.umag y)) ∧
+      (F64.isFinite (F64.ofInt D) = true ∧ F64.signBit (F64.ofInt D) = false ∧
+        ∀ y, DecFloat.adist (D * F64.unitScale) (F64.umag (F64.ofInt D)) ≤ DecFloat.adist (D * F64.unitScale) (F64.umag y)) ∧
+      (F64.isFinite (F64.div (F64.ofInt N) (F64.ofInt D)) = true → ∀ y,
+        DecFloat.adist (F64.umag (F64.ofInt N) * F64.unitScale) (F64.umag (F64.div (F64.ofInt N) (F64.ofInt D)) * F64.umag (F64.ofInt D)) ≤
+          DecFloat.adist (F64.umag (F64.ofInt N) * F64.unitScale) (F64.umag y * F64.umag (F64.ofInt D))) ∧
+      F64.isNaN (F64.div (F64.ofInt N) (F64.ofInt D)) = false ∧ F64.signBit (F64.div (F64.ofInt N) (F64.ofInt D)) = false := by
+  obtain ⟨N, D, hN, hD, hDpos, hNb, hDb, hnum, hden, hpop⟩ := intVariance_parts is hne hcount (sq_all_of_range hrange)
+  have hcell : intVariance is.length (intSum is) (intSum (is.map (fun x => x * x))) = F64.div (F64.ofInt N) (F64.ofInt D) := by
+    unfold intVariance; rw [hnum, hden]
+  have hv := stddev_of_ints e true vs is hne h hrange
+  rw [spreadInt_variance, hcell] at hv
+  have hsign := intVariance_sign hnum hden hNb hDpos hDb
+  rw [hcell] at hsign
+  refine ⟨N, D, hN, hD, hDpos, hpop, hv, ?_, ?_, ?_, hsign.1, hsign.2⟩
+  · exact ⟨(ofInt_nat_nearest hNb 0).1, (ofInt_nat_nearest hNb 0).2.1, fun y => (ofInt_nat_nearest hNb y).2.2.2⟩
+  · exact ⟨(ofInt_nat_nearest hDb 0).1, (ofInt_nat_nearest hDb 0).2.1, fun y => (ofInt_nat_nearest hDb y).2.2.2⟩
+  · intro hf y
+    have := intVariance_nearest hnum hden hNb hDpos hDb (by rw [hcell]; exact hf) y
+    rw [hcell] at this; exact this
 
-/-- **(ii) STDDEV.** … and where the square root does not round either (`sqrtExact`), the REAL shown for STDDEV is finite,
-non-negative, and its square is exactly the population variance -/
-theorem stddev_exact_where_no_step_rounds (e : Expr) (vs : List Value) (is : List Int) (hne : is ≠ [])
-    (h : nonNull vs = is.map Value.int) (hrange : sumsInRange is = true) (hex : onePassExactInts is = true)
-    (hr : sqrtExact (populationVariance is.length (F64.ofInt (intSum is)) (F64.ofInt (intSum (is.map (fun x => x * x))))) = true) :
-    ∃ r, aggregate (.stddev e false) vs = some (.real r) ∧ F64.isFinite r = true ∧ IsStdDev (ratsOfInts is) (F64.toRat r) := by
-  obtain ⟨hf, hsd⟩ := onePass_exact_stddev is hne hex hr
-  exact ⟨_, stddev_of_ints e false vs is hne h hrange, hf, hsd⟩
+/-- **never NaN, never negative** (INT arguments): the sign bit of the VARIANCE cell is clear and it is not NaN -/
+theorem int_variance_never_negative (e : Expr) (vs : List Value) (is : List Int) (hne : is ≠ [])
+    (h : nonNull vs = is.map Value.int) (hrange : sumsInRange is = true) (hcount : is.length < 2 ^ 63) :
+    ∃ v, aggregate (.stddev e true) vs = some (.real v) ∧ F64.isNaN v = false ∧ F64.signBit v = false := by
+  obtain ⟨N, D, _, _, _, _, hv, _, _, _, hn, hs⟩ := int_variance_is_rounded_exact_quotient e vs is hne h hrange hcount
+  exact ⟨_, hv, hn, hs⟩
 
-/-- … and the engine's running computation (`update_aggregate` folded over the group's values) shows that very REAL -/
-theorem engine_variance_exact_where_no_step_rounds (e : Expr) (vs : List Value) (is : List Int) (hne : is ≠ [])
-    (hvs : vs ≠ []) (h : nonNull vs = is.map Value.int) (hrange : sumsInRange is = true) (hex : onePassExactInts is = true) :
-    ∃ c v, foldV (.stddev e true) vs {} = .ok c ∧ shownValue (.stddev e true) c = .real v ∧
-      F64.IsExactly v (popVariance (ratsOfInts is)) := by
-  obtain ⟨v, hv, hx⟩ := variance_exact_where_no_step_rounds e vs is hne h hrange hex
-  obtain ⟨c, hc, hs, _⟩ := Props.C04.aggregate_fold_refines (.stddev e true) vs (.real v) hvs hv rfl
-  exact ⟨c, v, hc, hs, hx⟩
+/-- **`0.0` for equal values** (INT arguments): VARIANCE and STDDEV over `n` copies of one integer are the REAL `0.0` -/
+theorem int_variance_of_equal_values_is_zero (e : Expr) (vs : List Value) (n : Nat) (c : Int) (hn : 0 < n)
+    (h : nonNull vs = (List.replicate n c).map Value.int) (hrange : sumsInRange (List.replicate n c) = true)
+    (hcount : n < 2 ^ 63) :
+    aggregate (.stddev e true) vs = some (.real F64.zero) ∧ aggregate (.stddev e false) vs = some (.real F64.zero) := by
+  have hne : List.replicate n c ≠ [] := by
+    intro h0; have := congrArg List.length h0; simp at this; omega
+  obtain ⟨N, D, hN, _, hDpos, _, hDb, hnum, hden, _⟩ :=
+    intVariance_parts (List.replicate n c) hne (by simpa using hcount) (sq_all_of_range hrange)
+  have hN0 : (N : Int) = 0 := by rw [hN, varNumer_replicate]
+  have hz : intVariance (List.replicate n c).length (intSum (List.replicate n c))
+      (intSum ((List.replicate n c).map (fun x => x * x))) = F64.zero :=
+    intVariance_zero (by rw [hnum, hN0]) hden hDpos hDb
+  have h1 := stddev_of_ints e true vs _ hne h hrange
+  have h2 := stddev_of_ints e false vs _ hne h hrange
+  rw [spreadInt_variance, hz] at h1
+  rw [spreadInt_stddev, hz] at h2
+  exact ⟨h1, h2⟩
+
+/-- **one rounding only when `N`, `D < 2^53`**: both conversions are exact, so the (finite) VARIANCE cell is a REAL NEAREST TO THE
+TEXTBOOK VARIANCE `N / D` ITSELF (cross-multiplied by `D`, in units of 2^-1074) -/
+theorem int_variance_correctly_rounded_when_small (e : Expr) (vs : List Value) (is : List Int) (hne : is ≠ [])
+    (h : nonNull vs = is.map Value.int) (hrange : sumsInRange is = true) (hcount : is.length < 2 ^ 63)
+    (hsmallN : varNumer is < 2 ^ 53) (hsmallD : is.length * is.length < 2 ^ 53) :
+    ∃ (N D : Nat) (v : Nat), (N : Int) = varNumer is ∧ D = is.length * is.length ∧
+      popVariance (ratsOfInts is) = (N : Rat) / (D : Rat) ∧ aggregate (.stddev e true) vs = some (.real v) ∧
+      (F64.isFinite v = true → ∀ y, DecFloat.adist (N * F64.unitScale) (F64.umag v * D) ≤ DecFloat.adist (N * F64.unitScale) (F64.umag y * D)) := by
+  obtain ⟨N, D, hN, hD, hDpos, _, _, hnum, hden, hpop⟩ := intVariance_parts is hne hcount (sq_all_of_range hrange)
+  have hv := stddev_of_ints e true vs is hne h hrange
+  rw [spreadInt_variance] at hv
+  have hNb : N < 2 ^ 53 := by omega
+  refine ⟨N, D, _, hN, hD, hpop, hv, fun hf y => ?_⟩
+  exact intVariance_nearest_small hnum hden hNb hDpos (by omega) hf y
+
+/-- **exact when the variance is a REAL** (and `N`, `D < 2^53`): if the textbook variance is the exact value of a finite
+non-negative REAL `y`, the VARIANCE cell is `y` — a much weaker hypothesis than "no step of the one-pass formula rounds" -/
+theorem int_variance_exact_when_representable (e : Expr) (vs : List Value) (is : List Int) (hne : is ≠ [])
+    (h : nonNull vs = is.map Value.int) (hrange : sumsInRange is = true) (hcount : is.length < 2 ^ 63)
+    (hsmallN : varNumer is < 2 ^ 53) (hsmallD : is.length * is.length < 2 ^ 53)
+    (y : Nat) (hy : F64.IsExactly y (popVariance (ratsOfInts is))) (hs : F64.signBit y = false) (hylt : y < 2 ^ 64) :
+    aggregate (.stddev e true) vs = some (.real y) := by
+  obtain ⟨N, D, hN, hD, hDpos, _, _, hnum, hden, hpop⟩ := intVariance_parts is hne hcount (sq_all_of_range hrange)
+  have hv := stddev_of_ints e true vs is hne h hrange
+  rw [spreadInt_variance] at hv
+  have hpop' : popVariance (ratsOfInts is) = (N : Rat) / (D : Rat) := hpop
+  rw [intVariance_exact_rat hnum hden (by omega) hDpos (by omega) y hy.1 hs hylt (by rw [hy.2, hpop'])] at hv
+  exact hv
+
+/-- … and the engine's running computation (`update_aggregate` folded over the group's values) shows the very cell of the
+headline -/
+theorem engine_int_variance (e : Expr) (vs : List Value) (is : List Int) (hne : is ≠ []) (hvs : vs ≠ [])
+    (h : nonNull vs = is.map Value.int) (hrange : sumsInRange is = true) (hcount : is.length < 2 ^ 63) :
+    ∃ (N D : Nat) (c : Cell), (N : Int) = varNumer is ∧ D = is.length * is.length ∧
+      popVariance (ratsOfInts is) = (N : Rat) / (D : Rat) ∧
+      foldV (.stddev e true) vs {} = .ok c ∧ shownValue (.stddev e true) c = .real (F64.div (F64.ofInt N) (F64.ofInt D)) := by
+  obtain ⟨N, D, hN, hD, _, hpop, hv, _⟩ := int_variance_is_rounded_exact_quotient e vs is hne h hrange hcount
+  obtain ⟨c, hc, hs, _⟩ := Props.C04.aggregate_fold_refines (.stddev e true) vs _ hvs hv rfl
+  exact ⟨N, D, c, hN, hD, hpop, hc, hs⟩
+
+/-! examples: the hypotheses hold on non-trivial values, and the conclusions are evaluated -/
+
+/-- 2, 4, 4, 4, 5, 5, 7, 9 (mean 5): `N = 256`, `D = 64`; VARIANCE is the REAL 4.0 = the textbook variance, STDDEV the REAL 2.0 -/
+example : sumsInRange [2, 4, 4, 4, 5, 5, 7, 9] = true ∧ varNumer [2, 4, 4, 4, 5, 5, 7, 9] = 256 ∧
+    popVariance (ratsOfInts [2, 4, 4, 4, 5, 5, 7, 9]) = 4 ∧ F64.toRat 0x4010000000000000 = 4 := by decide +kernel
+example : aggregate (.stddev (.column "v") true) [.int 2, .int 4, .null, .int 4, .int 4, .int 5, .int 5, .int 7, .int 9] =
+      some (.real 0x4010000000000000) ∧
+    aggregate (.stddev (.column "v") false) [.int 2, .int 4, .null, .int 4, .int 4, .int 5, .int 5, .int 7, .int 9] =
+      some (.real 0x4000000000000000) :=
+  ⟨int_variance_exact_when_representable _ _ [2, 4, 4, 4, 5, 5, 7, 9] (by decide) rfl (by decide +kernel) (by decide)
+      (by decide) (by decide) 0x4010000000000000 (by decide +kernel) (by decide) (by decide),
+   real_of_bits (by decide +kernel)⟩
+/-- 1, 2, 3: the variance 2/3 is no REAL; `N = 6`, `D = 9` are small, so the cell `0x3fe5555555555555` is a REAL nearest to 2/3
+(`int_variance_correctly_rounded_when_small` applies) -/
+example : varNumer [1, 2, 3] = 6 ∧ popVariance (ratsOfInts [1, 2, 3]) = 2 / 3 ∧
+    aggregate (.stddev (.column "v") true) [.int 1, .int 2, .int 3] = some (.real 0x3fe5555555555555) :=
+  ⟨by decide +kernel, by decide +kernel, real_of_bits (by decide +kernel)⟩
+/-- large values with a small spread — 1000000007, 1000000008, 1000000010: `Σx² ≈ 3·10^18` is far beyond 53 bits, yet
+`N = 14`, `D = 9`, and the cell is `0x3ff8e38e38e38e39` = the REAL nearest to 14/9 = 1.5555… (the one-pass formula in REAL
+arithmetic showed rounding noise here) -/
+example : sumsInRange [1000000007, 1000000008, 1000000010] = true ∧ varNumer [1000000007, 1000000008, 1000000010] = 14 ∧
+    popVariance (ratsOfInts [1000000007, 1000000008, 1000000010]) = 14 / 9 ∧
+    (aggregate (.stddev (.column "v") true) [.int 1000000007, .int 1000000008, .int 1000000010]).bind asReal = some 0x3ff8e38e38e38e39 := by
+  decide +kernel
+
+/-! ### (iii) REAL arguments: the one-pass formula, clamped at zero -/
+
+theorem spread_variance (n : Int) (s q : Nat) : spread n true s q = realVariance n s q := by
+  simp only [spread, finishSpread, if_true]
+
+/-- **the clamp theorem, part 1**: the REAL shown for VARIANCE of REAL arguments is never below zero — it is NaN (only if the
+formula's result is NaN: infinite or NaN inputs), a zero, or positive -/
+theorem real_variance_never_below_zero (n : Int) (s q : Nat) : F64.cmp (realVariance n s q) F64.zero ≠ .lt :=
+  clampNegative_not_lt _
+
+/-- **the clamp theorem, part 2**: it IS the one-pass formula's value whenever that is not below zero, and `0.0` otherwise -/
+theorem real_variance_is_formula_unless_negative (n : Int) (s q : Nat) :
+    (F64.cmp (populationVariance n s q) F64.zero ≠ .lt → realVariance n s q = populationVariance n s q) ∧
+    (F64.cmp (populationVariance n s q) F64.zero = .lt → realVariance n s q = F64.zero) :=
+  ⟨fun h => clampNegative_of_not_lt h, fun h => clampNegative_of_lt h⟩
 
 theorem reals_map_real' (l : List Nat) : reals (l.map Value.real) = some l := by
   induction l with
@@ -147,7 +264,7 @@ theorem reals_map_real' (l : List Nat) : reals (l.map Value.real) = some l := by
 theorem ints_real_none (y : Nat) (ys : List Value) : ints (Value.real y :: ys) = none := by
   simp [ints, asInt, collect]
 
-/-- **(ii) VARIANCE of REAL arguments.** For finite REAL arguments on which neither the running sums `Σx`, `Σ(x·x)` nor the
+/-- **VARIANCE of REAL arguments where nothing rounds.** For finite REAL arguments on which neither the running sums `Σx`, `Σ(x·x)` nor the
 formula round (`onePassExactReals`, decidable) and whose first value is not `-0.0`, the REAL shown is finite and its exact value
 is the textbook population variance of the exact values of the arguments. -/
 theorem variance_exact_where_no_step_rounds_real (e : Expr) (vs : List Value) (r : Nat) (rs : List Nat)
@@ -164,39 +281,11 @@ theorem variance_exact_where_no_step_rounds_real (e : Expr) (vs : List Value) (r
     simp only [hz.1, hz.2, Bool.and_self, if_true]
   refine ⟨_, hv, ?_⟩
   rw [spread_variance]
-  exact onePass_exact_value_reals (r :: rs) (by simp) hex
-
-/-! examples: the hypotheses hold on non-trivial values, and the conclusions are evaluated -/
-
-/-- 2, 4, 4, 4, 5, 5, 7, 9 (mean 5): no step rounds; VARIANCE is the REAL 4.0, STDDEV the REAL 2.0 — the textbook values -/
-example : sumsInRange [2, 4, 4, 4, 5, 5, 7, 9] = true ∧ onePassExactInts [2, 4, 4, 4, 5, 5, 7, 9] = true ∧
-    sqrtExact (populationVariance 8 (F64.ofInt 40) (F64.ofInt 232)) = true := by decide +kernel
-example : popVariance (ratsOfInts [2, 4, 4, 4, 5, 5, 7, 9]) = 4 := by decide +kernel
-example : aggregate (.stddev (.column "v") true) [.int 2, .int 4, .null, .int 4, .int 4, .int 5, .int 5, .int 7, .int 9] =
-      some (.real 0x4010000000000000) ∧
-    aggregate (.stddev (.column "v") false) [.int 2, .int 4, .null, .int 4, .int 4, .int 5, .int 5, .int 7, .int 9] =
-      some (.real 0x4000000000000000) ∧
-    F64.toRat 0x4010000000000000 = 4 ∧ F64.toRat 0x4000000000000000 = 2 :=
-  ⟨real_of_bits (by decide +kernel), real_of_bits (by decide +kernel), by decide +kernel, by decide +kernel⟩
-/-- REAL arguments 0.5, 1.5, −2.25, 100.0 (bit patterns): sums, squares and the formula are exact; VARIANCE is exactly
-`1880.01171875` = the textbook variance of these four numbers -/
-example : onePassExactReals [0x3fe0000000000000, 0x3ff8000000000000, 0xc002000000000000, 0x4059000000000000] = true ∧
-    popVariance ([0x3fe0000000000000, 0x3ff8000000000000, 0xc002000000000000, 0x4059000000000000].map F64.toRat) = 481283 / 256 := by
-  decide +kernel
-/-- −3, 1, 5, 9 (mean 3): variance 20, not a perfect square: `onePassExactInts` holds, `sqrtExact` does not (√20 rounds) -/
-example : onePassExactInts [-3, 1, 5, 9] = true ∧ popVariance (ratsOfInts [-3, 1, 5, 9]) = 20 ∧
-    sqrtExact (populationVariance 4 (F64.ofInt 12) (F64.ofInt 116)) = false := by decide +kernel
-/-- 1, 2, 3: the variance 2/3 is no REAL, so some step must round: the predicate is false, the theorem silent; the REAL shown
-(0x3fe5555555555555) is the REAL nearest to 2/3 here, but nothing proved says so in general -/
-example : onePassExactInts [1, 2, 3] = false ∧ popVariance (ratsOfInts [1, 2, 3]) = 2 / 3 ∧
-    aggregate (.stddev (.column "v") true) [.int 1, .int 2, .int 3] = some (.real 0x3fe5555555555555) :=
-  ⟨by decide +kernel, by decide +kernel, real_of_bits (by decide +kernel)⟩
-
-/-! ### (iii) in general: every step correctly rounded, the result not -/
+  exact realVariance_exact_value (r :: rs) (by simp) hex
 
 /-- **every step of the formula is correctly rounded on its own operands** (finite operands and results, `n ≠ 0`): no REAL
 `y` is nearer to the exact `s·s`, `p/n`, `q − d`, `e/n` than the REALs `p`, `d`, `e`, `v` the model computes. The composition
-of four correctly rounded steps is NOT a correctly rounded variance (next theorems). -/
+of four correctly rounded steps is NOT a correctly rounded variance (`real_formula_can_go_negative`). -/
 theorem every_step_is_correctly_rounded (count : Int) (s q : Nat) (hs : F64.isFinite s = true) (hq : F64.isFinite q = true)
     (hn : F64.isFinite (steps count s q).n = true) (hz : F64.mag (steps count s q).n ≠ 0)
     (hp : F64.isFinite (steps count s q).p = true) (hd : F64.isFinite (steps count s q).d = true)
@@ -212,43 +301,46 @@ theorem every_step_is_correctly_rounded (count : Int) (s q : Nat) (hs : F64.isFi
 /-- the REAL nearest to 0.1 -/
 def tenth : Nat := 0x3fb999999999999a
 
-/-- **D72, REAL arguments.** VARIANCE over the three REALs 0.1, 0.1, 0.1 is the NEGATIVE REAL `0xbc35555555555555`
-(−1.1564823173178713e-18) and STDDEV is NaN — in the specification's formula, hence in the model, and on the real program.
-The exact variance of the three (equal) values is 0, and 0.0 is a REAL. -/
-theorem d72_variance_negative_real :
-    aggregate (.stddev (.column "v") true) [.real tenth, .real tenth, .real tenth] = some (.real 0xbc35555555555555) ∧
-    F64.signBit 0xbc35555555555555 = true ∧ F64.toRat 0xbc35555555555555 < 0 ∧
-    aggregate (.stddev (.column "v") false) [.real tenth, .real tenth, .real tenth] = some (.real F64.canonNaN) ∧
-    popVariance [F64.toRat tenth, F64.toRat tenth, F64.toRat tenth] = 0 := by
-  refine ⟨real_of_bits (by decide +kernel), by decide +kernel, by decide +kernel, real_of_bits (by decide +kernel), popVariance_const 3 _⟩
+/-- REAL arguments 0.5, 1.5, −2.25, 100.0 (bit patterns): sums, squares and the formula are exact; VARIANCE is exactly
+`1880.01171875` = the textbook variance of these four numbers -/
+example : onePassExactReals [0x3fe0000000000000, 0x3ff8000000000000, 0xc002000000000000, 0x4059000000000000] = true ∧
+    popVariance ([0x3fe0000000000000, 0x3ff8000000000000, 0xc002000000000000, 0x4059000000000000].map F64.toRat) = 481283 / 256 := by
+  decide +kernel
 
-/-- **D72, INT arguments.** VARIANCE over seven INTs 1000000007 is the negative REAL `0xc062492492492492` (−146.2857…),
-STDDEV is NaN; every sum is far inside the 64-bit range (`sumsInRange`); the exact variance is 0. -/
-theorem d72_variance_negative_int :
-    sumsInRange (List.replicate 7 1000000007) = true ∧
-    aggregate (.stddev (.column "v") true) (List.replicate 7 (.int 1000000007)) = some (.real 0xc062492492492492) ∧
-    F64.toRat 0xc062492492492492 < 0 ∧
-    aggregate (.stddev (.column "v") false) (List.replicate 7 (.int 1000000007)) = some (.real F64.canonNaN) ∧
-    popVariance (ratsOfInts (List.replicate 7 1000000007)) = 0 := by
-  refine ⟨by decide +kernel, real_of_bits (by decide +kernel), by decide +kernel, real_of_bits (by decide +kernel), by decide +kernel⟩
+/-- **why the clamp is there**: over the three REALs 0.1, 0.1, 0.1 the one-pass formula evaluates to the NEGATIVE REAL
+`0xbc35555555555555` (−1.1564823173178713e-18; exact variance 0): every step correctly rounded, the result below zero -/
+theorem real_formula_can_go_negative :
+    populationVariance 3 (realSum [tenth, tenth, tenth]) (realSum ([tenth, tenth, tenth].map (fun x => F64.mul x x))) = 0xbc35555555555555 ∧
+    F64.cmp 0xbc35555555555555 F64.zero = .lt ∧ popVariance [F64.toRat tenth, F64.toRat tenth, F64.toRat tenth] = 0 :=
+  ⟨by decide +kernel, by decide +kernel, popVariance_const 3 _⟩
 
-/-- **D72, the other direction.** VARIANCE over three INTs 300000007 is the REAL `0x4025555555555555` (10.666…) and STDDEV
-`0x400a20bd700c2c3e` (3.2659…): a spread is shown although all values are equal (exact variance 0). -/
-theorem d72_variance_of_equal_ints_positive :
-    sumsInRange (List.replicate 3 300000007) = true ∧
-    aggregate (.stddev (.column "v") true) (List.replicate 3 (.int 300000007)) = some (.real 0x4025555555555555) ∧
-    aggregate (.stddev (.column "v") false) (List.replicate 3 (.int 300000007)) = some (.real 0x400a20bd700c2c3e) ∧
-    F64.toRat 0x4025555555555555 > 10 ∧
-    popVariance (ratsOfInts (List.replicate 3 300000007)) = 0 := by
-  refine ⟨by decide +kernel, real_of_bits (by decide +kernel), real_of_bits (by decide +kernel), by decide +kernel, by decide +kernel⟩
+/-! ### finding D72, repaired: regression witnesses (kernel-evaluated; `harness witness D72` runs the same inputs on the code) -/
 
-/-- the engine shows exactly these cells (the C04 refinement applies: the specification answers): the running
-`update_aggregate` over seven rows 1000000007 ends with the negative variance in the cell -/
-theorem d72_engine_shows_negative_variance :
+/-- **D72 regression, REAL arguments.** VARIANCE and STDDEV over the three REALs 0.1, 0.1, 0.1 are `0.0` (they were
+−1.1564823173178713e-18 and NaN) -/
+theorem d72_repaired_real :
+    aggregate (.stddev (.column "v") true) [.real tenth, .real tenth, .real tenth] = some (.real F64.zero) ∧
+    aggregate (.stddev (.column "v") false) [.real tenth, .real tenth, .real tenth] = some (.real F64.zero) :=
+  ⟨real_of_bits (by decide +kernel), real_of_bits (by decide +kernel)⟩
+
+/-- **D72 regression, INT arguments.** VARIANCE and STDDEV over seven INTs 1000000007 are `0.0` (they were −146.2857… and NaN) -/
+theorem d72_repaired_int :
+    aggregate (.stddev (.column "v") true) (List.replicate 7 (.int 1000000007)) = some (.real F64.zero) ∧
+    aggregate (.stddev (.column "v") false) (List.replicate 7 (.int 1000000007)) = some (.real F64.zero) :=
+  int_variance_of_equal_values_is_zero _ _ 7 1000000007 (by decide) rfl (by decide +kernel) (by decide)
+
+/-- **D72 regression, the other direction.** VARIANCE and STDDEV over three INTs 300000007 are `0.0` (they were 10.666… and 3.2659…) -/
+theorem d72_repaired_equal_ints :
+    aggregate (.stddev (.column "v") true) (List.replicate 3 (.int 300000007)) = some (.real F64.zero) ∧
+    aggregate (.stddev (.column "v") false) (List.replicate 3 (.int 300000007)) = some (.real F64.zero) :=
+  int_variance_of_equal_values_is_zero _ _ 3 300000007 (by decide) rfl (by decide +kernel) (by decide)
+
+/-- the engine shows exactly these cells: the running `update_aggregate` over seven rows 1000000007 ends with `0.0` in the cell -/
+theorem d72_repaired_engine :
     ∃ c, foldV (.stddev (.column "v") true) (List.replicate 7 (.int 1000000007)) {} = .ok c ∧
-      shownValue (.stddev (.column "v") true) c = .real 0xc062492492492492 := by
+      shownValue (.stddev (.column "v") true) c = .real F64.zero := by
   obtain ⟨c, hc, hs, _⟩ := Props.C04.aggregate_fold_refines (.stddev (.column "v") true) (List.replicate 7 (.int 1000000007))
-    (.real 0xc062492492492492) (by decide) d72_variance_negative_int.2.1 rfl
+    (.real F64.zero) (by decide) d72_repaired_int.1 rfl
   exact ⟨c, hc, hs⟩
 
 /-! ### (iv) the choices of the code that the sentence does not fix (mirrored by the specification) -/
